@@ -130,73 +130,15 @@ func init() {
 		o.MinSites(1)
 	})
 
-	reg("C16", "C16.4", "T6", "Matcher.Matches: '=' whole-string equality, '!=' its negation, '=~' the compiled regexp, '!~' its negation — no shortcuts", func(o *Ob) {
-		fn := o.Fn("(*am/pkg/labels.Matcher).Matches")
-		t := func(v string) LitM { return L("(recv.Type == "+v+")", true) }
-		re := "(*regexp.Regexp).MatchString(recv.re, p0)"
-		o.Table(fn, "Matches", []Row{
-			{Name: "=", Assume: A(t("0")), Ret: [][]string{Vals("(p0 == recv.Value)", "(recv.Value == p0)")}},
-			{Name: "!=", Assume: A(t("0").Neg(), t("1")), Ret: [][]string{Vals("(p0 != recv.Value)", "(recv.Value != p0)", "!(p0 == recv.Value)")}},
-			{Name: "=~", Assume: A(t("0").Neg(), t("1").Neg(), t("2")), Ret: [][]string{Vals(re)}},
-			{Name: "!~", Assume: A(t("0").Neg(), t("1").Neg(), t("2").Neg(), t("3")), Ret: [][]string{Vals("!" + re)}},
-			{Name: "invalid type", Assume: A(t("0").Neg(), t("1").Neg(), t("2").Neg(), t("3").Neg()), NoReturn: true},
-		})
-		o.MinSites(4)
-	})
-
-	reg("C16", "C16.5", "T8,T11", "Matchers.Matches: all matchers must hold, value read as lset[name] (missing ⇒ empty); MatcherSet.Matches: any set", func(o *Ob) {
-		e := o.E
-		fn := o.Fn("(am/pkg/labels.Matchers).Matches")
-		mc := o.One(e.Calls(fn, "(*am/pkg/labels.Matcher).Matches"), "each", "Matchers.Matches must evaluate each matcher", fn)
-		o.Site(mc, "m.Matches(lset[m.Name])")
-		o.Check(e.Arg(mc, 0) == "recv[i]" && (e.Arg(mc, 1) == "conv:string(p0[recv[i].Name])" || e.Arg(mc, 1) == "p0[recv[i].Name]"), "arg", "each matcher must be applied to the value of its own label read by plain index (a missing label is the empty string), is applied to "+e.Arg(mc, 1), mc)
-		l := e.LoopOf(mc)
-		o.Require(l != nil, "loop", "matchers are not evaluated in a loop", mc)
-		coll, kind := e.RangeOver(l)
-		o.Check(coll == "recv" && kind == "index", "range", "every matcher must be evaluated", mc)
-		holds := L(e.X(fn, mc.(*ssa.Call)), true)
-		o.LoopExitsGuarded(l, "exit", "the evaluation may stop early only at a failing matcher", holds.Neg())
-		o.Check(!loopBackWithout(o, l, IsInstr(mc), nil), "skip", "a matcher can be skipped", mc)
-		for _, b := range fn.Blocks {
-			for si := range b.Succs {
-				if li, ok := e.EdgeLit(b, si); ok && holds.Neg().F(li) {
-					r := (&Walk{Fn: fn}).FromEdge(b, si)
-					for _, ret := range r.Returns() {
-						o.Check(e.X(fn, ret.Results[0]) == "false", "fail-result", "a failing matcher must make the list not match", ret)
-					}
-					for _, be := range l.Back {
-						o.Check(!r.Edge[be], "fail-continues", "after a failing matcher the evaluation continues", mc)
-					}
-				}
-			}
-		}
-		hx, _ := l.HeaderExit()
-		for _, ret := range (&Walk{Fn: fn}).FromEdge(l.Header, hx).Returns() {
-			o.Check(e.X(fn, ret.Results[0]) == "true", "all-result", "when every matcher holds the list must match", ret)
-		}
-		ms := o.Fn("(am/pkg/labels.MatcherSet).Matches")
-		sc := o.One(e.Calls(ms, "(am/pkg/labels.Matchers).Matches"), "set-each", "MatcherSet.Matches must evaluate each set", ms)
-		o.Site(sc, "set.Matches(lset)")
-		sl := e.LoopOf(sc)
-		o.Require(sl != nil, "set-loop", "sets are not evaluated in a loop", sc)
-		sh := L(e.X(ms, sc.(*ssa.Call)), true)
-		o.LoopExitsGuarded(sl, "set-exit", "the evaluation may stop early only at a matching set", sh)
-		o.Check(e.Arg(sc, 1) == "p0" && !loopBackWithout(o, sl, IsInstr(sc), nil), "set-skip", "a set can be skipped", sc)
-		hx2, _ := sl.HeaderExit()
-		for _, ret := range (&Walk{Fn: ms}).FromEdge(sl.Header, hx2).Returns() {
-			o.Check(e.X(ms, ret.Results[0]) == "false", "set-none", "when no set matches the silence must not match", ret)
-		}
-		for _, b := range ms.Blocks {
-			for si := range b.Succs {
-				if li, ok := e.EdgeLit(b, si); ok && sh.F(li) {
-					for _, ret := range (&Walk{Fn: ms}).FromEdge(b, si).Returns() {
-						o.Check(e.X(ms, ret.Results[0]) == "true", "set-any", "a matching set must make the silence match", ret)
-					}
-				}
-			}
-		}
-		o.MinSites(2)
-	})
+	reg("C16", "C16.4", "T6", "Matcher.Matches: '=' whole-string equality, '!=' its negation, '=~' the compiled regexp, '!~' its negation — no shortcuts", matcherMatchesRule)
+	reg("C16", "C16.5", "T8,T11", "Matchers.Matches: all matchers must hold, value read as lset[name] (missing ⇒ empty); MatcherSet.Matches: any set", matchersAllAnyRule)
+	// the same semantics is what routing, silencing and inhibition evaluate
+	reg("C07", "C07.7", "T6", "route matchers mean what they say: "+"Matcher.Matches: '=' whole-string equality, '!=' its negation, '=~' the compiled regexp, '!~' its negation — no shortcuts", matcherMatchesRule)
+	reg("C07", "C07.8", "T8,T11", "a route's matcher list holds iff every matcher holds: "+"Matchers.Matches: all matchers must hold, value read as lset[name] (missing ⇒ empty); MatcherSet.Matches: any set", matchersAllAnyRule)
+	reg("C02", "C02.10", "T6", "silence matchers mean what they say: "+"Matcher.Matches: '=' whole-string equality, '!=' its negation, '=~' the compiled regexp, '!~' its negation — no shortcuts", matcherMatchesRule)
+	reg("C02", "C02.11", "T8,T11", "a silence matches iff one of its matcher sets holds entirely: "+"Matchers.Matches: all matchers must hold, value read as lset[name] (missing ⇒ empty); MatcherSet.Matches: any set", matchersAllAnyRule)
+	reg("C03", "C03.11", "T6", "inhibition matchers mean what they say: "+"Matcher.Matches: '=' whole-string equality, '!=' its negation, '=~' the compiled regexp, '!~' its negation — no shortcuts", matcherMatchesRule)
+	reg("C03", "C03.12", "T8,T11", "source/target matcher lists hold iff every matcher holds: "+"Matchers.Matches: all matchers must hold, value read as lset[name] (missing ⇒ empty); MatcherSet.Matches: any set", matchersAllAnyRule)
 
 	reg("C16", "C16.6", "T4", "one meaning everywhere: routes, silences, inhibition and API filters evaluate matchers through (*Matcher).Matches; nothing else reads the compiled expression", func(o *Ob) {
 		e := o.E
@@ -385,4 +327,74 @@ func init() {
 		}
 		o.MinSites(2)
 	})
+}
+
+// matcherMatchesRule: Matcher.Matches' decision table per match type.
+func matcherMatchesRule(o *Ob) {
+	fn := o.Fn("(*am/pkg/labels.Matcher).Matches")
+	t := func(v string) LitM { return L("(recv.Type == "+v+")", true) }
+	re := "(*regexp.Regexp).MatchString(recv.re, p0)"
+	o.Table(fn, "Matches", []Row{
+		{Name: "=", Assume: A(t("0")), Ret: [][]string{Vals("(p0 == recv.Value)", "(recv.Value == p0)")}},
+		{Name: "!=", Assume: A(t("0").Neg(), t("1")), Ret: [][]string{Vals("(p0 != recv.Value)", "(recv.Value != p0)", "!(p0 == recv.Value)")}},
+		{Name: "=~", Assume: A(t("0").Neg(), t("1").Neg(), t("2")), Ret: [][]string{Vals(re)}},
+		{Name: "!~", Assume: A(t("0").Neg(), t("1").Neg(), t("2").Neg(), t("3")), Ret: [][]string{Vals("!" + re)}},
+		{Name: "invalid type", Assume: A(t("0").Neg(), t("1").Neg(), t("2").Neg(), t("3").Neg()), NoReturn: true},
+	})
+	o.MinSites(4)
+}
+
+// matchersAllAnyRule: Matchers.Matches is 'all matchers hold' over lset[name]; MatcherSet.Matches is 'any set'.
+func matchersAllAnyRule(o *Ob) {
+	e := o.E
+	fn := o.Fn("(am/pkg/labels.Matchers).Matches")
+	mc := o.One(e.Calls(fn, "(*am/pkg/labels.Matcher).Matches"), "each", "Matchers.Matches must evaluate each matcher", fn)
+	o.Site(mc, "m.Matches(lset[m.Name])")
+	o.Check(e.Arg(mc, 0) == "recv[i]" && (e.Arg(mc, 1) == "conv:string(p0[recv[i].Name])" || e.Arg(mc, 1) == "p0[recv[i].Name]"), "arg", "each matcher must be applied to the value of its own label read by plain index (a missing label is the empty string), is applied to "+e.Arg(mc, 1), mc)
+	l := e.LoopOf(mc)
+	o.Require(l != nil, "loop", "matchers are not evaluated in a loop", mc)
+	coll, kind := e.RangeOver(l)
+	o.Check(coll == "recv" && kind == "index", "range", "every matcher must be evaluated", mc)
+	holds := L(e.X(fn, mc.(*ssa.Call)), true)
+	o.LoopExitsGuarded(l, "exit", "the evaluation may stop early only at a failing matcher", holds.Neg())
+	o.Check(!loopBackWithout(o, l, IsInstr(mc), nil), "skip", "a matcher can be skipped", mc)
+	for _, b := range fn.Blocks {
+		for si := range b.Succs {
+			if li, ok := e.EdgeLit(b, si); ok && holds.Neg().F(li) {
+				r := (&Walk{Fn: fn}).FromEdge(b, si)
+				for _, ret := range r.Returns() {
+					o.Check(e.X(fn, ret.Results[0]) == "false", "fail-result", "a failing matcher must make the list not match", ret)
+				}
+				for _, be := range l.Back {
+					o.Check(!r.Edge[be], "fail-continues", "after a failing matcher the evaluation continues", mc)
+				}
+			}
+		}
+	}
+	hx, _ := l.HeaderExit()
+	for _, ret := range (&Walk{Fn: fn}).FromEdge(l.Header, hx).Returns() {
+		o.Check(e.X(fn, ret.Results[0]) == "true", "all-result", "when every matcher holds the list must match", ret)
+	}
+	ms := o.Fn("(am/pkg/labels.MatcherSet).Matches")
+	sc := o.One(e.Calls(ms, "(am/pkg/labels.Matchers).Matches"), "set-each", "MatcherSet.Matches must evaluate each set", ms)
+	o.Site(sc, "set.Matches(lset)")
+	sl := e.LoopOf(sc)
+	o.Require(sl != nil, "set-loop", "sets are not evaluated in a loop", sc)
+	sh := L(e.X(ms, sc.(*ssa.Call)), true)
+	o.LoopExitsGuarded(sl, "set-exit", "the evaluation may stop early only at a matching set", sh)
+	o.Check(e.Arg(sc, 1) == "p0" && !loopBackWithout(o, sl, IsInstr(sc), nil), "set-skip", "a set can be skipped", sc)
+	hx2, _ := sl.HeaderExit()
+	for _, ret := range (&Walk{Fn: ms}).FromEdge(sl.Header, hx2).Returns() {
+		o.Check(e.X(ms, ret.Results[0]) == "false", "set-none", "when no set matches the silence must not match", ret)
+	}
+	for _, b := range ms.Blocks {
+		for si := range b.Succs {
+			if li, ok := e.EdgeLit(b, si); ok && sh.F(li) {
+				for _, ret := range (&Walk{Fn: ms}).FromEdge(b, si).Returns() {
+					o.Check(e.X(ms, ret.Results[0]) == "true", "set-any", "a matching set must make the silence match", ret)
+				}
+			}
+		}
+	}
+	o.MinSites(2)
 }
